@@ -86,6 +86,15 @@ def getstateOp (args : Json) : Except String Json := do
       ("numbers", match s.numbers with | some n => Json.arr (n.map intJ).toArray | none => Json.null),
       ("fields", Json.arr (s.fields.map (fun nf => Json.str nf.1)).toArray)])
 
+/-- `c15.arrow_rt`: `from_arrow(to_arrow(il))` — what comes back, or the error class -/
+def arrowRtOp (args : Json) : Except String Json := do
+  let il ← initIL (← args.getObjVal? "init")
+  match arrowRT il with
+  | .error e => pure (Json.mkObj [("err", Json.str (errTag e))])
+  | .ok o => pure (Json.mkObj [("len", natJ o.len), ("ordered", Json.bool o.ordered),
+      ("ids", match o.ids with | some i => Json.arr (i.map natJ).toArray | none => Json.null),
+      ("fields", Json.arr (o.fields.map (fun nf => Json.str nf.1)).toArray)])
+
 def run (args : Json) : Except String Json := do
   let vt := if (getStr args "variant").toOption == some "repaired" then Variant.repaired else Variant.asIs
   let il ← initIL (← args.getObjVal? "init")
